@@ -2,7 +2,10 @@
 
 package slip
 
-import "strings"
+import (
+	"bytes"
+	"strings"
+)
 
 // SymbolSymbol is the symbol with a value of "symbol".
 const SymbolSymbol = Symbol("symbol")
@@ -30,14 +33,27 @@ func (obj Symbol) Readably(b []byte, p *Printer) []byte {
 	if obj[0] == ':' {
 		return append(b, p.caseName(string(obj))...)
 	}
-	for _, c := range []byte(obj) {
-		if needPipeMap[c] == 'x' {
-			b = append(b, '|')
-			b = append(b, p.caseName(string(obj))...)
-			return append(b, '|')
-		}
+	if obj.needPipes() {
+		b = append(b, '|')
+		b = append(b, p.caseName(string(obj))...)
+		return append(b, '|')
 	}
 	return append(b, p.caseName(string(obj))...)
+}
+
+// needPipes returns true if the name has to be written between |bars| to be
+// read back as this symbol.
+func (obj Symbol) needPipes() bool {
+	for _, c := range []byte(obj) {
+		if needPipeMap[c] == 'x' {
+			return true
+		}
+	}
+	if c := obj[0]; c == '+' || c == '-' || ('0' <= c && c <= '9') {
+		// Without bars a name spelled like a number is read as a number.
+		return numberLike(bytes.ToLower([]byte(obj)))
+	}
+	return false
 }
 
 // Simplify the Object into a string.
